@@ -5,7 +5,9 @@
    the R instance of the model (exact arithmetic), except the FLOAT blocks at the end of the file:
    the componentwise backward error of the substitution routines (Proofs/SubstFloat.v) and of the
    elimination phase of [ge] itself (Proofs/GaussFloat.v) is PROVED for the binary64 instance, under
-   per-operation no-overflow/no-underflow hypotheses checkable by computation.  That "well-conditioned
+   per-operation no-overflow/no-underflow hypotheses checkable by computation, and composed into an
+   END-TO-END componentwise residual bound for the returned vector (c08_ge_float_residual,
+   Proofs/SolveFloat.v).  That "well-conditioned
    systems are never refused" in floating point, and the envelope on arbitrary inputs, are measured by
    the correspondence check and the exact oracle, not proved.
    The model is Model/Gauss.v = spindalis/src/solvers/gaussian_elim.rs after the
@@ -354,3 +356,91 @@ Example c08_float_nonvacuous_ge :
      ge_rhs_ok (fun r => ex_ge_b (ge_perm 3 ex_ge_tol ex_ge_a ex_ge_b r))
                (ge_L 3 ex_ge_tol ex_ge_a ex_ge_b) (ge_y 3 ex_ge_tol ex_ge_a ex_ge_b) i).
 Proof. exact Proofs.GaussFloat.ex_ge_float_hyps. Qed.
+
+(* ---- END-TO-END: the vector returned by [ge] has a small componentwise residual (Proofs/SolveFloat.v) ---- *)
+From SV Require Import Proofs.SolveFloat.
+
+(* pure real arithmetic: three componentwise backward errors compose into a residual bound *)
+Theorem c08_lu_solve_residual : forall (n : nat) (L U A' : mat R) (y x b' : vec R) (g1 g2 g3 : R),
+  0 <= g1 -> 0 <= g2 -> 0 <= g3 ->
+  (forall i k, (i < n)%nat -> (k < n)%nat ->
+     Rabs (msum 0 n (fun j => L i j * U j k) - A' i k) <= g1 * msum 0 n (fun j => Rabs (L i j) * Rabs (U j k))) ->
+  (forall i, (i < n)%nat ->
+     Rabs (msum 0 n (fun j => L i j * y j) - b' i) <= g2 * msum 0 n (fun j => Rabs (L i j) * Rabs (y j))) ->
+  (forall i, (i < n)%nat ->
+     Rabs (msum 0 n (fun j => U i j * x j) - y i) <= g3 * msum 0 n (fun j => Rabs (U i j) * Rabs (x j))) ->
+  forall i, (i < n)%nat ->
+    Rabs (msum 0 n (fun k => A' i k * x k) - b' i)
+    <= (g1 + g2 * (1 + g3) + g3)
+       * msum 0 n (fun j => msum 0 n (fun k => Rabs (L i j) * Rabs (U j k) * Rabs (x k))).
+Proof. exact Proofs.SolveFloat.lu_solve_residual. Qed.
+Check c08_lu_solve_residual : forall (n : nat) (L U A' : mat R) (y x b' : vec R) (g1 g2 g3 : R),
+  0 <= g1 -> 0 <= g2 -> 0 <= g3 ->
+  (forall i k, (i < n)%nat -> (k < n)%nat ->
+     Rabs (msum 0 n (fun j => L i j * U j k) - A' i k) <= g1 * msum 0 n (fun j => Rabs (L i j) * Rabs (U j k))) ->
+  (forall i, (i < n)%nat ->
+     Rabs (msum 0 n (fun j => L i j * y j) - b' i) <= g2 * msum 0 n (fun j => Rabs (L i j) * Rabs (y j))) ->
+  (forall i, (i < n)%nat ->
+     Rabs (msum 0 n (fun j => U i j * x j) - y i) <= g3 * msum 0 n (fun j => Rabs (U i j) * Rabs (x j))) ->
+  forall i, (i < n)%nat ->
+    Rabs (msum 0 n (fun k => A' i k * x k) - b' i)
+    <= (g1 + g2 * (1 + g3) + g3)
+       * msum 0 n (fun j => msum 0 n (fun k => Rabs (L i j) * Rabs (U j k) * Rabs (x k))).
+Print Assumptions c08_lu_solve_residual.
+
+(* binary64: the vector x RETURNED by gaussian elimination satisfies, in every row s i of the ORIGINAL system,
+   |sum_k A_(s i)k x_k - b_(s i)| <= (g_n + g_n (1 + g_(n+1)) + g_(n+1)) * sum_j sum_k |L_ij| |U_jk| |x_k|,
+   g_m = (1+2^-53)^m - 1, under the per-operation hypotheses of c08_ge_float_backward_error (elimination) and of
+   c08_back_substitution_float_error (back substitution on the final working matrix and right-hand side) *)
+Theorem c08_ge_float_residual : forall (n : nat) (A : mat PrimFloat.float) (b : vec PrimFloat.float)
+                                       (tol : PrimFloat.float) (x : vec PrimFloat.float),
+  ge n n A n b tol = Ok x ->
+  let s := ge_perm n tol A b in
+  let L := ge_L n tol A b in
+  let U := ge_U n tol A b in
+  let y := ge_y n tol A b in
+  (forall i k, (i < n)%nat -> (k < n)%nat -> plu_entry_ok (fun r c => A (s r) c) L U i k) ->
+  (forall i, (i < n)%nat -> ge_rhs_ok (fun r => b (s r)) L y i) ->
+  (forall i, (i < n)%nat -> back_row_ok (ge_W n tol A b) n y x i) ->
+  forall i, (i < n)%nat ->
+    is_finite (Prim2B (x i)) = true /\
+    Rabs (msum 0 n (fun k => B2R (Prim2B (A (s i) k)) * B2R (Prim2B (x k))) - B2R (Prim2B (b (s i))))
+    <= (((1 + bpow radix2 (-53)) ^ n - 1)
+        + ((1 + bpow radix2 (-53)) ^ n - 1) * (1 + ((1 + bpow radix2 (-53)) ^ (n + 1) - 1))
+        + ((1 + bpow radix2 (-53)) ^ (n + 1) - 1))
+       * msum 0 n (fun j => msum 0 n (fun k =>
+           Rabs (B2R (Prim2B (L i j))) * Rabs (B2R (Prim2B (U j k))) * Rabs (B2R (Prim2B (x k))))).
+Proof. exact Proofs.SolveFloat.ge_float_residual. Qed.
+Check c08_ge_float_residual : forall (n : nat) (A : mat PrimFloat.float) (b : vec PrimFloat.float)
+                                       (tol : PrimFloat.float) (x : vec PrimFloat.float),
+  ge n n A n b tol = Ok x ->
+  let s := ge_perm n tol A b in
+  let L := ge_L n tol A b in
+  let U := ge_U n tol A b in
+  let y := ge_y n tol A b in
+  (forall i k, (i < n)%nat -> (k < n)%nat -> plu_entry_ok (fun r c => A (s r) c) L U i k) ->
+  (forall i, (i < n)%nat -> ge_rhs_ok (fun r => b (s r)) L y i) ->
+  (forall i, (i < n)%nat -> back_row_ok (ge_W n tol A b) n y x i) ->
+  forall i, (i < n)%nat ->
+    is_finite (Prim2B (x i)) = true /\
+    Rabs (msum 0 n (fun k => B2R (Prim2B (A (s i) k)) * B2R (Prim2B (x k))) - B2R (Prim2B (b (s i))))
+    <= (((1 + bpow radix2 (-53)) ^ n - 1)
+        + ((1 + bpow radix2 (-53)) ^ n - 1) * (1 + ((1 + bpow radix2 (-53)) ^ (n + 1) - 1))
+        + ((1 + bpow radix2 (-53)) ^ (n + 1) - 1))
+       * msum 0 n (fun j => msum 0 n (fun k =>
+           Rabs (B2R (Prim2B (L i j))) * Rabs (B2R (Prim2B (U j k))) * Rabs (B2R (Prim2B (x k))))).
+Print Assumptions c08_ge_float_residual.
+
+(* non-vacuity, by computation: A = [[1,2,3],[4,5,6],[7,8,10]] (ex_ge_a), b = [1,2,4] (ex_ge_b2; with b = [1,2,3] the
+   last component of the solution is an exact zero, which the computational criteria okmul_by_leb / okdiv_by_leb do
+   not cover), tol = 1e-12: ALL hypotheses of c08_ge_float_residual hold together *)
+Example c08_float_nonvacuous_ge_residual : exists x, ge 3 3 ex_ge_a 3 ex_ge_b2 ex_ge_tol = Ok x /\
+  (forall i k, (i < 3)%nat -> (k < 3)%nat ->
+     plu_entry_ok (fun r c => ex_ge_a (ge_perm 3 ex_ge_tol ex_ge_a ex_ge_b2 r) c)
+                  (ge_L 3 ex_ge_tol ex_ge_a ex_ge_b2) (ge_U 3 ex_ge_tol ex_ge_a ex_ge_b2) i k) /\
+  (forall i, (i < 3)%nat ->
+     ge_rhs_ok (fun r => ex_ge_b2 (ge_perm 3 ex_ge_tol ex_ge_a ex_ge_b2 r))
+               (ge_L 3 ex_ge_tol ex_ge_a ex_ge_b2) (ge_y 3 ex_ge_tol ex_ge_a ex_ge_b2) i) /\
+  (forall i, (i < 3)%nat ->
+     back_row_ok (ge_W 3 ex_ge_tol ex_ge_a ex_ge_b2) 3 (ge_y 3 ex_ge_tol ex_ge_a ex_ge_b2) x i).
+Proof. exact Proofs.SolveFloat.ex_ge_residual_hyps. Qed.
